@@ -16,7 +16,7 @@ ID = "C19"
 LEVEL = "exploration"
 SHARDS = {"quick": 16, "thorough": 16}
 RULE = (
-    "A store is pre-populated by a generated C05 history, then reopened read-only (flag from the constructor argument, from a config dict, through StorageBackend.create or through a "
+    "A store is pre-populated by a generated C05 history, then reopened read-only (flag from the constructor argument, from a config dict, from the argument overriding the dump of a writable backend that says "readonly": false, through StorageBackend.create or through a "
     "FunctionCluster config; with and without memory cache; filesystem and memory) and driven by a second generated history of storage operations and by function-level call sequences "
     "(hits, misses, forget, forget_all, put_metadata with and without store_with_data, get_metadata, memento, list). Oracle: zero mutating audit events under the data and metadata roots "
     "and an unchanged tree digest; reads agree with the model of the pre-populated store; memoize returns without error and without effect; forget_* and write_metadata raise; misses execute "
@@ -47,6 +47,11 @@ def _open_ro(kind, how, data_path, meta_path, cache_mb):
                                         memory_cache_mb=cache_mb, read_only=True)
     if how == "config":
         return FilesystemStorageBackend(config=cfg)
+    if how == "arg-over-config":
+        # the configuration is the dump of a writable backend on the same paths (it spells out "readonly": false);
+        # the explicit argument overrides it
+        writer = FilesystemStorageBackend(path=data_path, metadata_path=None if meta_path == data_path else meta_path, memory_cache_mb=cache_mb)
+        return FilesystemStorageBackend(config=dict(writer.to_dict()), read_only=True)
     if how == "create":
         return StorageBackend.create("filesystem", dict(cfg, type="filesystem"))
     if how == "cluster":
@@ -305,7 +310,7 @@ def small_scope(max_len):
     alphabet = [a for a in alphabet if a[0] != "reopen_noop"]
     for n in range(1, max_len + 1):
         for seq in itertools.product(alphabet, repeat=n):
-            for kind, how in (("fs", "arg"), ("fs", "config"), ("fsc", "create"), ("fsc", "cluster"), ("mem", "-")):
+            for kind, how in (("fs", "arg"), ("fs", "config"), ("fsc", "create"), ("fsc", "cluster"), ("fs", "arg-over-config"), ("mem", "-")):
                 yield {"kind": kind, "how": how, "budget_kb": 2, "shared_meta": kind != "fsc", "sweep": "full",
                        "populate": POPULATE, "ops": [list(o) for o in seq]}
 
@@ -321,7 +326,7 @@ def strategy(thorough):
         ops = [o for o in ro["ops"] if o[0] != "reopen"]
         # sometimes turn a metadata write into one that is stored with the data
         ops = [(o + [True]) if (o[0] == "write_meta" and draw(st.booleans())) else o for o in ops]
-        return {"kind": kind, "how": draw(st.sampled_from(["arg", "config", "create", "cluster"])) if kind != "mem" else "-",
+        return {"kind": kind, "how": draw(st.sampled_from(["arg", "config", "create", "cluster", "arg-over-config"])) if kind != "mem" else "-",
                 "budget_kb": pop["budget_kb"], "shared_meta": pop["shared_meta"], "sweep": ro["sweep"],
                 "populate": [o for o in pop["ops"] if o[0] != "reopen"] + POPULATE[:2], "ops": ops or [["list_functions"]]}
 
@@ -332,9 +337,9 @@ def strategy(thorough):
     function_case = st.builds(
         lambda mode, how, cache, pre, pm, ops: {"level": "function", "mode": mode, "how": how, "cache": cache, "pre": sorted(pre), "pre_meta": pm, "ops": ops},
         st.sampled_from(["readonly", "readonly", "readonly", "nullstorage", "nullrunner"]),
-        st.sampled_from(["arg", "config", "create", "cluster"]), st.booleans(),
+        st.sampled_from(["arg", "config", "create", "cluster", "arg-over-config"]), st.booleans(),
         st.lists(st.integers(0, 5), max_size=4, unique=True), st.booleans(), st.lists(fop, min_size=1, max_size=12))
-    return st.one_of(storage_case(), function_case, function_case)
+    return st.integers(0, 2).flatmap(lambda i: storage_case() if i == 0 else function_case)
 
 
 def run_shard(ctx):
